@@ -359,6 +359,9 @@ def rule_R7(ck):
         if p.kind != "return" or p.value != want:
             ck.violation(where, f"character literal evaluates to {p.value!r}, expected the first two encoded bytes, zero padded, as a little-endian word: {want!r}", construct="CharLiteral packing", expected=repr(want), found=repr(p.value))
         too_long = cell.lo is not None and cell.lo > 2
+        if cell.lo is not None and cell.lo <= 2 and (cell.hi is None or cell.hi > 2):
+            ck.violation(where, f"the length guard of character literals puts its boundary inside {cell}: one and two bytes fit a word, three or more do not", construct="CharLiteral length")
+            continue
         if too_long and not errs:
             ck.violation(where, "a character literal that encodes to more than two bytes is not reported", construct="CharLiteral length")
         if not too_long and errs and cell.hi is not None and cell.hi <= 2:
